@@ -107,7 +107,10 @@ def runner_corruptions():
 
     return {
         "verdict-flipped": ("C01", edit(lambda r: r["kind"] == "verdict",
-                                        lambda r: r.__setitem__("failed", not r["failed"]))),
+                                        lambda r: (r.__setitem__("failed", not r["failed"]),
+                                                   r.__setitem__("exit_failed", not r["exit_failed"])))),
+        "run_and_exit-outcome-flipped": ("C01", edit(lambda r: r["kind"] == "verdict",
+                                                     lambda r: r.__setitem__("exit_failed", not r["exit_failed"]))),
         "scenario-Finished-event-dropped": ("C02", drop(lambda r: _is_sc(r, "Finished"))),
         "step-result-before-its-Started": ("C02", swap_with_next_event(lambda r: _is_sc(r, "StepS"))),
         "step-Started-event-duplicated": ("C02", dup(lambda r: _is_sc(r, "StepS"))),
@@ -283,6 +286,20 @@ def selftest_recordings():
          lambda v: any(x[0] == "C12" and x[1].startswith("summary") for x in v["viol"]))
     case("C01", "pipeline-verdict-flipped", src, "Trace_Summarize.tla", "Trace_Summarize.cfg", flip_verdict,
          lambda v: any(x[0] == "C01" for x in v["viol"]))
+
+    def flip_exit(r):
+        r["verdicts"][-1]["exit_failed"] = not r["verdicts"][-1]["exit_failed"]
+        return True
+
+    def text_off(r):
+        if r["text"]["present"]:
+            r["text"]["st_passed"] += 1
+            return True
+        return False
+    case("C01", "run_and_exit-outcome-flipped", src, "Trace_Summarize.tla", "Trace_Summarize.cfg", flip_exit,
+         lambda v: any(x[0] == "C01" and x[1].startswith("run_and_exit") for x in v["viol"]))
+    case("C12", "summary-text-number-off-by-one", src, "Trace_Summarize.tla", "Trace_Summarize.cfg", text_off,
+         lambda v: any(x[0] == "C12" and x[1].startswith("summary-text") for x in v["viol"]))
 
     # C13 combinators: what the leaves received
     src = _needs(os.path.join(WORK, "comb_out.ndjson"), "C13")
